@@ -184,8 +184,12 @@ class Transportation1dSorter {
 
   /**
    * Convert back an assignment given by the solver through preprocessing
+   *
+   * The result has one entry per original source; sources with zero supply
+   * are assigned to the first sink with non-zero demand
    */
-  std::vector<int> convertAssignmentBack(const std::vector<int> &a) const;
+  std::vector<int> convertAssignmentBack(const std::vector<int> &a,
+                                         int nbSources) const;
 
  private:
   std::vector<int> srcOrder;
